@@ -98,6 +98,9 @@ func allSplits(n int) [][]int {
 	return out
 }
 
+// two pieces at EVERY offset whatever the length of the stream (directed cases)
+var c08EveryOffset bool
+
 func c08Script(c *Ctx, r *Rng, o simOpts, small bool) {
 	R := c.R
 	// a throw-away connection only to learn the encoder parameters
@@ -176,7 +179,7 @@ func c08Script(c *Ctx, r *Rng, o simOpts, small bool) {
 	}
 	// two pieces at every offset (sampled for long streams)
 	step := 1
-	if n > 400 && !c.Thorough {
+	if n > 400 && !c.Thorough && !c08EveryOffset {
 		step = n / 300
 	}
 	for k := 1; k < n; k += step {
@@ -215,6 +218,25 @@ func runC08(c *Ctx) {
 	}
 	for i := 0; i < 4; i++ {
 		c08Script(c, r.Fork(), simOpts{serverRev: 54460}, true)
+	}
+	// directed: variable-length values (strings, arrays of strings, LowCardinality dictionaries) in plain and compressed
+	// streams, cut in two at EVERY offset: inside a length prefix, inside a value, in the last bytes of a value
+	for _, schema := range [][]string{{"String"}, {"Array(String)", "UInt8"}, {"LowCardinality(String)", "String"}} {
+		var ts []*TNode
+		for _, s := range schema {
+			t, err := parseCH(s)
+			if err == nil {
+				ts = append(ts, t)
+			}
+		}
+		for _, comp := range []ch.Compression{ch.CompressionDisabled, ch.CompressionLZ4} {
+			c03ForcedSchema, c08EveryOffset = ts, true
+			c08Script(c, r.Fork(), simOpts{compression: comp, serverRev: 54460}, false)
+			c03ForcedSchema, c08EveryOffset = nil, false
+			if !c.Thorough {
+				break
+			}
+		}
 	}
 	// idle gaps between packets longer than the read timeout: the receive loop retries
 	gaps := 6
